@@ -63,7 +63,7 @@ def run(ctx):
     n_ev = 6000 if ctx.quick else 120000
     shards = 16
     m2 = ctx.run_impl("c01", [dict(id=k, mode="m2", seed=ctx.seed * 1000 + k, n=n_ev // shards) for k in range(shards)],
-                      nproc=shards, timeout_s=3000)
+                      nproc=shards, timeout_s=3000 if ctx.quick else 9000, env=dict(VERIF_CASE_TIMEOUT=900 if ctx.quick else 3000))
     events = list(rand_events)
     nid = len(cases)
     for k in range(shards):
